@@ -1055,7 +1055,7 @@ class _NP(object):
     def _domain(self, x, name, pred):
         if isinstance(x, ArrBase) and x.ndim:
             c = CTX()
-            if getattr(c, 'replay', False) or not c.side_on:
+            if getattr(c, 'replay', False) or not c.side_on or c.__dict__.get('domain_off', 0):
                 return
             if any(dim_conc(d) and d == 0 for d in x.shape):
                 return            # empty array: nothing is computed
@@ -1751,7 +1751,7 @@ class _NP(object):
         return _NpzFile(fs[filename], allow_pickle)
 
     def errstate(self, **kw):
-        return _NullCtx()
+        return _NullCtx(ignore=any(v == 'ignore' for v in kw.values()))
 
     def finfo(self, t):
         return _Finfo()
@@ -1819,10 +1819,21 @@ class _Finfo(object):
 
 
 class _NullCtx(object):
+    """np.errstate(...): inside it invalid operations (sqrt/log of a negative number, 0/0) are deliberate: numpy yields nan/inf
+    which the calling code filters; the model yields an arbitrary real there and emits no domain side obligation"""
+    def __init__(self, ignore=False):
+        self.ignore = ignore
+
     def __enter__(self):
+        c = sym._CTX[0]
+        if c is not None and self.ignore:
+            c.__dict__['domain_off'] = c.__dict__.get('domain_off', 0) + 1
         return self
 
     def __exit__(self, *a):
+        c = sym._CTX[0]
+        if c is not None and self.ignore:
+            c.__dict__['domain_off'] = c.__dict__.get('domain_off', 0) - 1
         return False
 
 
